@@ -34,6 +34,9 @@ type World struct {
 
 	// Resolver script: name -> successive answers (last one repeats).
 	Hosts map[string][][]net.IP
+	// EOFWithData: permille of "last read of a stream returns its bytes together
+	// with io.EOF" on the ends held by the code under test
+	EOFWithData int
 	// LookupDelay: virtual time a name lookup takes (nil: none)
 	LookupDelay func(host string) time.Duration
 	// ResolveErr names fail to resolve.
